@@ -38,6 +38,13 @@ structure A3Inv (n : Node) : Prop where
         (n.signed[i]'(by omega)).round < (n.signed[j]).round →
         (n.signed[j]).bid.hash ≠ (n.signed[i]'(by omega)).bid.hash →
         ReleasedBy n (n.signed[i]'(by omega)) (n.signed[j]).round
+  /-- A1 for fresh runs: the own prevote of the current round implies the node is past Prevote -/
+  pv : ∀ p ∈ n.signed, p.type = 1 → p.height = n.height → p.round = n.round → Step.prevote ≤ n.step
+  /-- ... so no two signed votes share height, round and type -/
+  uniq : ∀ (i j : Nat) (_ : i < j) (hj : j < n.signed.length),
+        ¬ ((n.signed[i]'(by omega)).height = (n.signed[j]).height ∧
+           (n.signed[i]'(by omega)).round = (n.signed[j]).round ∧
+           (n.signed[i]'(by omega)).type = (n.signed[j]).type)
 
 theorem ReleasedBy.mono {n n' : Node} {p : VoteSet.Vote} {u u' : Int} (x : ReleasedBy n p u)
     (hu : u ≤ u') (hs : ∀ r b, maj23 (prevotes n r) = some b → maj23 (prevotes n' r) = some b) :
@@ -63,7 +70,7 @@ theorem A3Inv.keep {n n' : Node} (i : A3Inv n) (e : Ext n n') (k : Kept n n') (l
     (hs : n'.signed = n.signed) : A3Inv n' := by
   have hround := l.round_le k.h
   have stab := e.stable k.h
-  refine ⟨?_, ?_, ?_, ?_, ?_⟩
+  refine ⟨?_, ?_, ?_, ?_, ?_, ?_, ?_⟩
   · intro v hv
     rw [hs] at hv
     obtain ⟨a, b⟩ := i.hr v hv
@@ -96,11 +103,24 @@ theorem A3Inv.keep {n n' : Node} (i : A3Inv n) (e : Ext n n') (k : Kept n n') (l
     rw [e2] at h2 h3 h4 h5 ⊢
     have h1' : IsPC n (n.signed[a]'(by omega)) := ⟨h1.1, h1.2.1, by rw [← k.h]; exact h1.2.2⟩
     exact (i.g3 a b hab hb' h1' h2 (by rw [← k.h]; exact h3) h4 h5).mono (Int.le_refl _) stab
+  · intro p hp ht hh hr
+    rw [hs] at hp
+    rw [k.h] at hh
+    have h1 := (i.hr p hp).2 hh
+    have heq : n'.round = n.round := by omega
+    have := i.pv p hp ht hh (by omega)
+    exact Nat.le_trans this (l.step_le k.h heq)
+  · intro a b hab hb
+    have hb' : b < n.signed.length := by rw [← hs]; exact hb
+    have e1 : n'.signed[a]'(by omega) = n.signed[a]'(by omega) := by simp [hs]
+    have e2 : n'.signed[b] = n.signed[b] := by simp [hs]
+    rw [e1, e2]
+    exact i.uniq a b hab hb'
 
 /-- the height moved on: nothing of the old height is the subject any more -/
 theorem A3Inv.next {n n' : Node} (i : A3Inv n) (hh : n.height < n'.height) (hs : n'.signed = n.signed)
     (hl : n'.lockedBlock = none) : A3Inv n' := by
-  refine ⟨?_, ?_, ?_, ?_, ?_⟩
+  refine ⟨?_, ?_, ?_, ?_, ?_, ?_, ?_⟩
   · intro v hv
     rw [hs] at hv
     have := (i.hr v hv).1
@@ -122,6 +142,16 @@ theorem A3Inv.next {n n' : Node} (i : A3Inv n) (hh : n.height < n'.height) (hs :
     have := (i.hr _ (List.getElem_mem (l := n.signed) (by omega : a < n.signed.length))).1
     have := h1.2.2
     omega
+  · intro p hp _ hh2 _
+    rw [hs] at hp
+    have := (i.hr p hp).1
+    omega
+  · intro a b hab hb
+    have hb' : b < n.signed.length := by rw [← hs]; exact hb
+    have e1 : n'.signed[a]'(by omega) = n.signed[a]'(by omega) := by simp [hs]
+    have e2 : n'.signed[b] = n.signed[b] := by simp [hs]
+    rw [e1, e2]
+    exact i.uniq a b hab hb'
 
 /-! ### who signs -/
 
@@ -201,9 +231,12 @@ theorem A3Inv.step {n n' : Node} (i : A3Inv n) (extra : List VoteSet.Vote) (hlen
     (hpl : ∀ p, (p ∈ n.signed ∨ p ∈ extra) → IsPC n p →
       (n'.lockedBlock = some p.bid.hash ∧ p.round ≤ n'.lockedRound) ∨ ReleasedBy n' p n'.round)
     (hg3 : ∀ v ∈ extra, v.type = 1 → ∀ p ∈ n.signed, IsPC n p → p.round < v.round →
-      v.bid.hash ≠ p.bid.hash → ReleasedBy n' p v.round) : A3Inv n' := by
+      v.bid.hash ≠ p.bid.hash → ReleasedBy n' p v.round)
+    (hpv : ∀ v ∈ extra, v.type = 1 → Step.prevote ≤ n'.step)
+    (hfresh : ∀ v ∈ extra, ∀ p ∈ n.signed, ¬ (p.height = v.height ∧ p.round = v.round ∧ p.type = v.type)) :
+    A3Inv n' := by
   have pcEq : ∀ p, IsPC n' p ↔ IsPC n p := fun p => by unfold IsPC; rw [hh]
-  refine ⟨?_, ?_, ?_, ?_, ?_⟩
+  refine ⟨?_, ?_, ?_, ?_, ?_, ?_, ?_⟩
   · intro v hv
     rw [hs] at hv
     rw [hh, hround]
@@ -248,6 +281,36 @@ theorem A3Inv.step {n n' : Node} (i : A3Inv n) (extra : List VoteSet.Vote) (hlen
       rw [e1] at h1 h4 h5 ⊢
       rw [e2] at h2 h4 h5 ⊢
       exact hg3 v (by rw [hv]; simp) h2 _ (List.getElem_mem _) ((pcEq _).mp h1) h4 h5
+  · intro p hp ht hh2 hr2
+    rw [hs] at hp
+    rcases List.mem_append.mp hp with hp | hp
+    · have := i.pv p hp ht (by rw [← hh]; exact hh2) (by rw [← hround]; exact hr2)
+      exact Nat.le_trans this hstep
+    · exact hpv p hp ht
+  · intro a b hab hb
+    have hlen' : n'.signed.length = n.signed.length + extra.length := by rw [hs]; simp
+    by_cases hbl : b < n.signed.length
+    · have e1 : n'.signed[a]'(by omega) = n.signed[a]'(by omega) := by
+        simp only [hs]; exact List.getElem_append_left (by omega)
+      have e2 : n'.signed[b] = n.signed[b] := by
+        simp only [hs]; exact List.getElem_append_left hbl
+      rw [e1, e2]
+      exact i.uniq a b hab hbl
+    · have hb' : b = n.signed.length := by omega
+      have hext : extra.length = 1 := by omega
+      obtain ⟨v, hv⟩ : ∃ v, extra = [v] := by
+        cases extra with
+        | nil => simp at hext
+        | cons x r => cases r with
+          | nil => exact ⟨x, rfl⟩
+          | cons y z => simp at hext
+      have e1 : n'.signed[a]'(by omega) = n.signed[a]'(by omega) := by
+        simp only [hs]; exact List.getElem_append_left (by omega)
+      have e2 : n'.signed[b] = v := by
+        simp only [hs, hv, hb']
+        simp
+      rw [e1, e2]
+      exact hfresh v (by rw [hv]; simp) _ (List.getElem_mem _)
 
 theorem bidOf_hash (b : Name) : (bidOf b).hash = b := by
   unfold bidOf
@@ -257,8 +320,9 @@ theorem bidOf_hash (b : Name) : (bidOf b).hash = b := by
 
 /-- the prevote step: sign a prevote that follows the lock, then stand in (r, Prevote) -/
 theorem a3_prevoteStep (n : Node) (bid : VoteSet.BlockID) (r : Int) (hr : r = n.round)
-    (hst : n.step.toNat ≤ Step.prevote.toNat) (hb : ∀ L, n.lockedBlock = some L → bid.hash = L)
+    (hnst : ¬ Step.prevote ≤ n.step) (hb : ∀ L, n.lockedBlock = some L → bid.hash = L)
     (i : A3Inv n) : A3Inv { signAddVote n 1 bid with round := r, step := .prevote } := by
+  have hst : n.step.toNat ≤ Step.prevote.toNat := Nat.le_of_lt (step_lt_of_not_le hnst)
   obtain ⟨hsig, hrounds⟩ := signAddVote_facts n 1 bid
   have k := kept_signAddVote n 1 bid
   have common : ∀ extra : List VoteSet.Vote, extra.length ≤ 1 →
@@ -266,7 +330,11 @@ theorem a3_prevoteStep (n : Node) (bid : VoteSet.BlockID) (r : Int) (hr : r = n.
       (signAddVote n 1 bid).signed = n.signed ++ extra →
       A3Inv { signAddVote n 1 bid with round := r, step := .prevote } := by
     intro extra hlen hform hs
-    refine i.step extra hlen ?_ hs k.h hrounds hr hst ?_ ?_ ?_ ?_
+    refine i.step extra hlen ?_ hs k.h hrounds hr hst ?_ ?_ ?_ ?_ (fun _ _ _ => Nat.le_refl _) ?_
+    rotate_left 5
+    · intro v hv p hp hk
+      rw [hform v hv] at hk
+      exact hnst (i.pv p hp hk.2.2 hk.1 hk.2.1)
     · intro v hv; rw [hform v hv]; exact ⟨rfl, rfl⟩
     · intro v hv ht; rw [hform v hv] at ht; simp at ht
     · intro hl
@@ -307,9 +375,7 @@ theorem a3_enterPrevote (n : Node) (h r : Int) (hw : n.height = h → r ≤ n.ro
       have : ¬ r < n.round := fun x => hg (Or.inr (Or.inl x))
       have := hw hh
       omega
-    have hst : n.step.toNat ≤ Step.prevote.toNat := by
-      have : ¬ Step.prevote ≤ n.step := fun x => hg (Or.inr (Or.inr ⟨hrr.symm, x⟩))
-      exact Nat.le_of_lt (step_lt_of_not_le this)
+    have hst : ¬ Step.prevote ≤ n.step := fun x => hg (Or.inr (Or.inr ⟨hrr.symm, x⟩))
     unfold doPrevote
     split
     · rename_i b hb
@@ -322,13 +388,14 @@ theorem a3_enterPrevote (n : Node) (h r : Int) (hw : n.height = h → r ≤ n.ro
 /-- the precommit step: the lock may have been changed (`m`), a precommit is signed for the current
     round, then the node stands in (r, Precommit) -/
 theorem a3_precommitStep (n m : Node) (bid : VoteSet.BlockID) (r : Int) (hr : r = n.round)
-    (hst : n.step.toNat ≤ Step.precommit.toNat)
+    (hnst : ¬ Step.precommit ≤ n.step)
     (e1 : m.signed = n.signed) (e2 : m.height = n.height) (e3 : m.round = n.round) (e4 : m.rounds = n.rounds)
     (hlr : m.lockedBlock.isSome = true → m.lockedRound ≤ n.round)
     (hold : ∀ p ∈ n.signed, IsPC n p →
       (m.lockedBlock = some p.bid.hash ∧ p.round ≤ m.lockedRound) ∨ ReleasedBy n p n.round)
     (hnew : bid.hash.isEmpty = false → m.lockedBlock = some bid.hash ∧ n.round ≤ m.lockedRound)
     (i : A3Inv n) : A3Inv { signAddVote m 2 bid with round := r, step := .precommit } := by
+  have hst : n.step.toNat ≤ Step.precommit.toNat := Nat.le_of_lt (step_lt_of_not_le hnst)
   obtain ⟨hsig, hrounds⟩ := signAddVote_facts m 2 bid
   have k := kept_signAddVote m 2 bid
   have common : ∀ extra : List VoteSet.Vote, extra.length ≤ 1 →
@@ -336,7 +403,12 @@ theorem a3_precommitStep (n m : Node) (bid : VoteSet.BlockID) (r : Int) (hr : r 
       (signAddVote m 2 bid).signed = n.signed ++ extra →
       A3Inv { signAddVote m 2 bid with round := r, step := .precommit } := by
     intro extra hlen hform hs
-    refine i.step extra hlen ?_ hs (k.h.trans e2) (hrounds.trans e4) hr hst ?_ ?_ ?_ ?_
+    refine i.step extra hlen ?_ hs (k.h.trans e2) (hrounds.trans e4) hr hst ?_ ?_ ?_ ?_ ?_ ?_
+    rotate_left 5
+    · intro v hv ht; rw [hform v hv] at ht; simp at ht
+    · intro v hv p hp hk
+      rw [hform v hv] at hk
+      exact hnst (i.ps p hp hk.2.2 hk.1 hk.2.1)
     · intro v hv; rw [hform v hv]; exact ⟨rfl, rfl⟩
     · intro v _ _; exact Nat.le_refl _
     · intro hl
@@ -409,7 +481,7 @@ theorem a3_enterPrecommit (n : Node) (h r : Int) (hw : n.height = h → r ≤ n.
     -- a step that signs nothing (the panics)
     have quiet : ∀ e : Emit, A3Inv { emit n e with round := r, step := Step.precommit } := by
       intro e
-      refine i.step [] (by simp) (by simp) (by simp [emit]) rfl rfl hrr hst (by simp) ?_ ?_ (by simp)
+      refine i.step [] (by simp) (by simp) (by simp [emit]) rfl rfl hrr hst (by simp) ?_ ?_ (by simp) (by simp) (by simp)
       · intro hl; show n.lockedRound ≤ r; rw [hrr]; exact i.lr hl
       · intro p hp hpc
         rcases hp with hp | hp
@@ -422,7 +494,7 @@ theorem a3_enterPrecommit (n : Node) (h r : Int) (hw : n.height = h → r ≤ n.
     dsimp only
     split
     · -- no polka: precommit nil, the lock stays
-      exact a3_precommitStep n n _ r hrr hst rfl rfl rfl rfl i.lr i.pl (fun x => (nilE x).elim) i
+      exact a3_precommitStep n n _ r hrr hnst rfl rfl rfl rfl i.lr i.pl (fun x => (nilE x).elim) i
     · rename_i blockID hm
       -- what a polka for `blockID` in this round does to an earlier precommit for another block
       have rel : ∀ p ∈ n.signed, IsPC n p → blockID.hash ≠ p.bid.hash → ReleasedBy n p n.round :=
@@ -439,12 +511,12 @@ theorem a3_enterPrecommit (n : Node) (h r : Int) (hw : n.height = h → r ≤ n.
             unfold nonNil at this
             rw [← e, hnil] at this; cases this
           split
-          · refine a3_precommitStep n (unlock n) _ r hrr hst rfl rfl rfl rfl (by simp [unlock]) ?_
+          · refine a3_precommitStep n (unlock n) _ r hrr hnst rfl rfl rfl rfl (by simp [unlock]) ?_
               (fun x => (nilE x).elim) i
             intro p hp hpc
             exact Or.inr (rel p hp hpc (hne p hpc))
           · rename_i hnl
-            refine a3_precommitStep n n _ r hrr hst rfl rfl rfl rfl i.lr ?_ (fun x => (nilE x).elim) i
+            refine a3_precommitStep n n _ r hrr hnst rfl rfl rfl rfl i.lr ?_ (fun x => (nilE x).elim) i
             intro p hp hpc
             exact Or.inr (rel p hp hpc (hne p hpc))
         · rename_i hnn
@@ -453,7 +525,7 @@ theorem a3_enterPrecommit (n : Node) (h r : Int) (hw : n.height = h → r ≤ n.
           · -- relock
             rename_i hlk
             have hL : n.lockedBlock = some blockID.hash := hashesTo_eq hlk
-            refine a3_precommitStep n { n with lockedRound := r } blockID r hrr hst rfl rfl rfl rfl
+            refine a3_precommitStep n { n with lockedRound := r } blockID r hrr hnst rfl rfl rfl rfl
               (fun _ => by show r ≤ n.round; omega) ?_ (fun _ => ⟨hL, by show n.round ≤ r; omega⟩) i
             intro p hp hpc
             rcases i.pl p hp hpc with x | x
@@ -471,7 +543,7 @@ theorem a3_enterPrecommit (n : Node) (h r : Int) (hw : n.height = h → r ≤ n.
               · exact quiet _
               · -- lock the proposal block
                 have hP : n.proposalBlock = some blockID.hash := hashesTo_eq hpb
-                refine a3_precommitStep n { n with lockedRound := r, lockedBlock := n.proposalBlock } blockID r hrr hst
+                refine a3_precommitStep n { n with lockedRound := r, lockedBlock := n.proposalBlock } blockID r hrr hnst
                   rfl rfl rfl rfl (fun _ => by show r ≤ n.round; omega) ?_
                   (fun _ => ⟨hP, by show n.round ≤ r; omega⟩) i
                 intro p hp hpc
@@ -491,7 +563,7 @@ theorem a3_enterPrecommit (n : Node) (h r : Int) (hw : n.height = h → r ≤ n.
                   m.rounds = n.rounds → m.lockedBlock = none →
                   A3Inv { signAddVote m 2 (bidOf []) with round := r, step := Step.precommit } := by
                 intro m e1 e2 e3 e4 e5
-                refine a3_precommitStep n m _ r hrr hst e1 e2 e3 e4 (by rw [e5]; simp) ?_ (fun x => (nilE x).elim) i
+                refine a3_precommitStep n m _ r hrr hnst e1 e2 e3 e4 (by rw [e5]; simp) ?_ (fun x => (nilE x).elim) i
                 intro p hp hpc
                 rcases i.pl p hp hpc with x | x
                 · right
@@ -693,7 +765,7 @@ theorem a3_unlock_on_polka (m : Node) (vr : Int) (b : VoteSet.BlockID) (hm : maj
     (hcond : m.lockedBlock.isSome = true ∧ m.lockedRound < vr ∧ vr ≤ m.round)
     (hne : (!hashesTo m.lockedBlock b.hash) = true) (i : A3Inv m) : A3Inv (unlock m) := by
   refine i.step [] (by simp) (by simp) (by simp [unlock]) rfl rfl rfl (Nat.le_refl _) (by simp)
-    (by simp [unlock]) ?_ (by simp)
+    (by simp [unlock]) ?_ (by simp) (by simp) (by simp)
   intro p hp hpc
   rcases hp with hp | hp
   · rcases i.pl p hp hpc with x | x
@@ -825,10 +897,12 @@ theorem a3_run (ins : List In) : ∀ n : Node, A3Inv n → RunOK n ins → A3Inv
 
 theorem init_a3 (cfg : Cfg) (height : Int) (vals : ValSet.ValSet) (me : Option Nat) (skip : Bool) :
     A3Inv (init cfg height vals me skip) := by
-  refine ⟨?_, ?_, ?_, ?_, ?_⟩
+  refine ⟨?_, ?_, ?_, ?_, ?_, ?_, ?_⟩
   · intro v hv; simp [init] at hv
   · intro p hp; simp [init] at hp
   · intro hl; simp [init] at hl
+  · intro p hp; simp [init] at hp
+  · intro a b _ hb; simp [init] at hb
   · intro p hp; simp [init] at hp
   · intro a b _ hb; simp [init] at hb
 
